@@ -27,9 +27,10 @@ RULES = {
     "C47.consume": "the receiver takes every ITP off the header queue (within 8 cycles) and never takes another type",
 }
 PROBES = ["itp", "other_type", "back_to_back_itp", "itp_right_after_other", "high_counter_bits", "high_delta_bits",
-          "near_miss_type", "second_consumer_stall", "itp_with_delayed_flag"]
+          "near_miss_type", "second_consumer_stall", "itp_with_delayed_flag", "protocol_layer_runs"]
 META = {
-    "components_real": ["luna.gateware.usb.usb3.protocol.timestamp.TimestampPacketReceiver",
+    "components_real": ["every 6th run: luna.gateware.usb.usb3.protocol.layer.USB3ProtocolLayer complete (demultiplexer, timestamp receiver and "
+                        "the other packet handlers as wired there; the link layer is represented by its port signals only)", "luna.gateware.usb.usb3.protocol.timestamp.TimestampPacketReceiver",
                         "luna.gateware.usb.usb3.link.header.HeaderQueueDemultiplexer"],
     "components_stubbed": ["link-layer header queue producer (holds valid+header until ready)",
                            "second header consumer (takes every non-ITP header after a literal stall)"],
@@ -58,7 +59,19 @@ def _link_fields(rng):
             "crc5": rng.getrandbits(5)}
 
 
+LAYER_EVERY = 6         # every 6th run (index % 6 == 4): the receiver as USB3ProtocolLayer wires it (its `bus_interval` output)
+
+
 def gen(rng, tier, index):
+    if index % LAYER_EVERY == 4:
+        # Protocol-layer run: only timestamp packets (the layer's other consumers are real and are not this check's business),
+        # isolated and back to back, with arbitrary link control words; judged at the layer's bus_interval output.
+        n = rng.randint(3, 30)
+        p_gap = rng.choice([0.0, 0.3, 0.7])
+        ops = [{"op": "itp", "ctr": rng.choice([rng.getrandbits(14), 0x3FFF, 1 << rng.randrange(14)]), "delta": rng.getrandbits(13),
+                "dw1": rng.getrandbits(32), "dw2": rng.getrandbits(32), "gap": rng.randint(1, 6) if rng.random() < p_gap else 0,
+                "link": _link_fields(rng)} for _ in range(n)]
+        return {"engine": ENGINE, "config": {"dut": "protocol_layer"}, "ops": ops}
     n = rng.randint(4, 40 if tier == "quick" else 150)
     p_itp = rng.choice([0.3, 0.6, 0.85, 1.0])
     p_gap = rng.choice([0.0, 0.3, 0.7])
@@ -250,7 +263,99 @@ class _Actor:
         self.gap_left = self.ops[self.i]["gap"] if self.i < len(self.ops) else 0
 
 
+def _layer_bench():
+    def factory():
+        from luna.gateware.usb.usb3.protocol.layer import USB3ProtocolLayer
+        from luna.gateware.usb.usb3.link.layer import USB3LinkLayer
+
+        class _NoPHY:
+            pass
+        link = USB3LinkLayer(physical_layer=_NoPHY())        # never elaborated: only its port signals stand in for the link layer
+        dut = USB3ProtocolLayer(link_layer=link)
+        src = link.header_source
+        ins = {"valid": src.valid, "dw0": src.header.dw0, "dw1": src.header.dw1, "dw2": src.header.dw2}
+        ins.update({"l_" + f: getattr(src.header, f) for f in LINK_FIELDS})
+        outs = {"ready": src.ready, "bus_interval": dut.bus_interval}
+        return make_bench(dut, clocks={"ss": 1 / 125e6}, main="ss", ins=ins, outs=outs)
+    return cached_bench(("c47", "layer"), factory)
+
+
+def _run_layer(scn):
+    bench = _layer_bench()
+    viol = Violations()
+    probes = {p: 0 for p in PROBES}
+    ops = scn["ops"]
+    SETTLE = 4
+
+    class Actor:
+        def __init__(self):
+            self.i, self.gap = 0, ops[0]["gap"] if ops else 0
+            self.presented = 0
+            self.taken = []                 # (cycle, ctr)
+            self.hist = []
+            self.cur = None
+            self.tail = 0
+
+        def drive(self, t):
+            if self.i >= len(ops):
+                self.cur = None
+                return {"valid": 0}
+            if self.gap > 0:
+                self.gap -= 1
+                self.cur = None
+                return {"valid": 0}
+            op = self.cur = ops[self.i]
+            pins = {"valid": 1, "dw0": itp_dw0(op["ctr"], op["delta"]), "dw1": op["dw1"], "dw2": op["dw2"]}
+            pins.update({"l_" + f: op.get("link", {}).get(f, 0) for f in LINK_FIELDS})
+            return pins
+
+        def observe(self, t, o):
+            self.hist.append(o["bus_interval"])
+            if self.cur is not None:
+                if o["ready"]:
+                    self.taken.append((t, self.cur["ctr"]))
+                    if self.presented == 0 and self.taken[-2:-1] and self.taken[-2][0] == t - 1:
+                        probes["back_to_back_itp"] += 1
+                    probes["itp"] += 1
+                    if self.cur.get("link", {}).get("delayed"):
+                        probes["itp_with_delayed_flag"] += 1
+                    self.i += 1
+                    self.presented = 0
+                    self.gap = ops[self.i]["gap"] if self.i < len(ops) else 0
+                else:
+                    self.presented += 1
+                    if self.presented > ACCEPT_BOUND and not viol:
+                        viol.add("C47.consume", t, f"protocol layer: timestamp packet #{self.i} has been offered for {self.presented} "
+                                 f"cycles without being taken off the header queue", dut="protocol_layer")
+                        return True
+            if self.i >= len(ops):
+                self.tail += 1
+                return self.tail > SETTLE + 4
+            return False
+
+    a = Actor()
+    log = bench.run([a], max_cycles=sum(op["gap"] + ACCEPT_BOUND + 2 for op in ops) + 40)
+    if not viol:
+        for k, (t, ctr) in enumerate(a.taken):
+            t_next = a.taken[k + 1][0] if k + 1 < len(a.taken) else len(a.hist) - 1
+            # from SETTLE cycles after the packet was taken until the next one is taken, the layer shows this packet's counter
+            for c in range(t + SETTLE, min(t_next, len(a.hist) - 1) + 1):
+                if a.hist[c] != ctr:
+                    viol.add("C47.fields", c, f"protocol layer: bus_interval={a.hist[c]:#x} in cycle {c}; the last timestamp packet taken "
+                             f"(cycle {t}) carried bus interval counter {ctr:#x}", dut="protocol_layer",
+                             back_to_back=bool(k and a.taken[k - 1][0] == t - 1))
+                    break
+            if viol:
+                break
+    probes["protocol_layer_runs"] = 1
+    sig = hashlib.blake2b(repr(("layer", len(ops), sorted(set(op["gap"] for op in ops)))).encode(), digest_size=8).hexdigest()
+    return {"violations": viol.items, "cycles": log.cycles, "faults": {"producer_gap": sum(1 for op in ops if op["gap"])},
+            "probes": probes, "sig": sig, "nontrivial": len(a.taken) > 1, "digest": log.digest, "fsm": len(log.fsm_vectors)}
+
+
 def run(scn):
+    if scn["config"].get("dut") == "protocol_layer":
+        return _run_layer(scn)
     bench = _bench()
     viol = Violations()
     probes = {p: 0 for p in PROBES}
